@@ -208,11 +208,31 @@ def loopback_bytes(rng):
     return le32(fam) + body
 
 
+def ppi_fields(rng):
+    """a PPI field list as the PPI specification lays it out: (pfh_type, pfh_datalen, data) triples, little endian; the
+    802.11-Common field (type 2, 20 bytes: TSF timer 8, flags 2 with bit 0 = FCS at end, rate, channel, …) usually first"""
+    out = b""
+    kinds = rng.choice([[2], [2, 3], [3, 2], [4, 2, 5], [rng.randrange(65536)], [2, 2], [30002, 2]])
+    for t in kinds:
+        if t == 2:
+            d = bytearray(rb(rng, 20)); d[8] = rng.choice([0, 1, 1, 0xff, d[8]]); d = bytes(d)
+        else:
+            d = rb(rng, rng.choice([0, 1, 4, 12, 48]))
+        declared = len(d) if rng.random() < 0.8 else rng.choice([0, 8, 9, 20, len(d) + 1, 0xffff])
+        out += le16(t) + le16(declared) + d
+    return out
+
+
 def ppi_bytes(rng):
-    dlt = rng.choice([0, 1, 1, 105, 113, 127, 192, 147, rng.randrange(300), rng.randrange(1 << 32)])
-    data = rb(rng, rng.choice([0, 0, 1, 12, 13, 20, 24, 32]))
-    if len(data) >= 13:
-        b = bytearray(data); b[12] = rng.choice([0, 1, 1, 0xff, b[12]]); data = bytes(b)
+    dlt = rng.choice([0, 1, 1, 105, 105, 113, 127, 192, 147, rng.randrange(300), rng.randrange(1 << 32)])
+    if rng.random() < 0.5:
+        data = ppi_fields(rng)
+        if rng.random() < 0.5:                              # pph_len ends inside the field list
+            data = data[:rng.randrange(len(data) + 1)]
+    else:
+        data = rb(rng, rng.choice([0, 0, 1, 12, 13, 20, 24, 32]))
+        if len(data) >= 13:
+            b = bytearray(data); b[12] = rng.choice([0, 1, 1, 0xff, b[12]]); data = bytes(b)
     if dlt == 1:
         body = dot3_bytes(rng) if rng.random() < 0.4 else eth_bytes(rng)
     elif dlt == 0:
@@ -306,6 +326,14 @@ def exhaustive_small():
     for ln in (0, 1, 2, 3, 4, 5, 7, 8, 9, 255, 256):       # PPPoE: one tag, length field vs bytes present
         for present in (ln, max(0, ln - 1), ln + 1):
             ops.append("parse PPPoE " + hexs(bytes([0x11, 9]) + be16(0) + be16(4 + present) + be16(0x0105) + be16(ln) + bytes(present)))
+    # PPI over 802.11: pph_len cut at every position of a field list (802.11-Common first / second, FCS-at-end flag set),
+    # in front of a short frame — a parser that walks the field headers must not trust pfh_datalen beyond pph_len
+    common = le16(2) + le16(20) + bytes(8) + b"\x01\x00" + bytes(10)
+    other = le16(3) + le16(12) + bytes(12)
+    frame = bytes([0xd4, 0, 0, 0, 1, 2, 3, 4, 5, 6]) + bytes(4)
+    for fl in (common + other, other + common, common):
+        for cut in range(len(fl) + 1):
+            ops.append("parse PPI " + hexs(bytes([0, 0]) + le16(8 + cut) + le32(105) + fl[:cut] + frame))
     for dlt in (0, 1, 105, 113, 127, 192, 9):               # PPI: every dispatch target on short frames
         for body in (b"", b"\x00", bytes(12) + b"\x07", bytes(12) + b"\x08", bytes(16)):
             ops.append("parse PPI " + hexs(bytes([0, 0]) + le16(8) + le32(dlt) + body))
